@@ -225,6 +225,13 @@ func (e *Exec) deliver(rg *region, from, to *ssa.BasicBlock, st *State) {
 
 // bindPhis computes phi values of block b from the incoming edge states.
 func (e *Exec) bindPhis(fr *frame, b *ssa.BasicBlock, ins []edgeState) {
+	for phi, v := range e.phiValues(fr, b, ins) {
+		fr.vals[phi] = v
+	}
+}
+
+func (e *Exec) phiValues(fr *frame, b *ssa.BasicBlock, ins []edgeState) map[*ssa.Phi]*smt.Term {
+	out := map[*ssa.Phi]*smt.Term{}
 	for _, instr := range b.Instrs {
 		phi, ok := instr.(*ssa.Phi)
 		if !ok {
@@ -254,7 +261,27 @@ func (e *Exec) bindPhis(fr *frame, b *ssa.BasicBlock, ins []edgeState) {
 				v = smt.Ite(conds[i], x, v)
 			}
 		}
-		fr.vals[phi] = v
+		out[phi] = v
+	}
+	return out
+}
+
+func headerPhis(b *ssa.BasicBlock) []*ssa.Phi {
+	var out []*ssa.Phi
+	for _, instr := range b.Instrs {
+		phi, ok := instr.(*ssa.Phi)
+		if !ok {
+			break
+		}
+		out = append(out, phi)
+	}
+	return out
+}
+
+// havocPhis gives the loop-carried phis of a cut loop arbitrary values.
+func (e *Exec) havocPhis(fr *frame, st *State, b *ssa.BasicBlock) {
+	for _, phi := range headerPhis(b) {
+		fr.vals[phi] = e.freshVal(st, "phi."+phi.Comment, phi.Type())
 	}
 }
 
@@ -328,6 +355,7 @@ func (e *Exec) processLoop(outer *region, li *loopInfo, pre *State) {
 	ms := e.discover(fr, li, pre)
 	st := pre.Clone()
 	e.havocMods(st, ms)
+	e.havocPhis(fr, st, li.header)
 	if spec != nil {
 		for k := range spec.Invs {
 			st.Assume(e.evalInv(fr, spec, li, k, st))
@@ -341,9 +369,17 @@ func (e *Exec) processLoop(outer *region, li *loopInfo, pre *State) {
 	e.runRegion(rg)
 	if spec != nil {
 		for _, b := range rg.backs {
+			saved := map[*ssa.Phi]*smt.Term{}
+			for phi, v := range e.phiValues(fr, li.header, []edgeState{b}) {
+				saved[phi] = fr.vals[phi]
+				fr.vals[phi] = v
+			}
 			for k, cl := range spec.Invs {
 				g := e.evalInv(fr, spec, li, k, b.st)
 				e.check(b.st, "inv-pres", g, pos, e.invLabel(li, k, cl))
+			}
+			for phi, v := range saved {
+				fr.vals[phi] = v
 			}
 		}
 	}
@@ -425,6 +461,7 @@ func (e *Exec) discover(fr *frame, li *loopInfo, pre *State) *modset {
 		before := ms.size()
 		st := pre.Clone()
 		e.havocMods(st, ms)
+		e.havocPhis(fr, st, li.header)
 		e.disc = ms
 		rg := &region{fr: fr, blocks: li.blocks, order: li.order, header: li.header,
 			in: map[*ssa.BasicBlock][]edgeState{}, done: map[*ssa.BasicBlock]bool{}}
@@ -466,6 +503,11 @@ func (e *Exec) havocMods(st *State, ms *modset) {
 			continue
 		}
 		st.Cells[c] = e.freshVal(st, "l."+c.Comment, t)
+		if c.Comment == "rangeindex" {
+			// compiler-generated range counter: starts at -1 and only ever increments below len
+			e.Axiom(smt.BVSle(smt.Const(64, ^uint64(0)), st.Cells[c]))
+			e.Axiom(smt.BVSle(st.Cells[c], cap48))
+		}
 	}
 	var gs []string
 	for g := range ms.ghost {
@@ -501,7 +543,18 @@ func (e *Exec) evalInv(fr *frame, spec *LoopSpec, li *loopInfo, k int, st *State
 	for i, p := range f.Params {
 		a := e.findLocal(fr, p.Name(), li)
 		if a == nil {
-			unsupported("invariant of %s loop %d: no variable %q", con.Display(), spec.N, p.Name())
+			// hidden loop-carried registers (range loops): bound by phi comment
+			var found *smt.Term
+			for _, phi := range headerPhis(li.header) {
+				if phi.Comment == p.Name() {
+					found = fr.vals[phi]
+				}
+			}
+			if found == nil {
+				unsupported("invariant of %s loop %d: no variable %q", con.Display(), spec.N, p.Name())
+			}
+			args[i] = found
+			continue
 		}
 		args[i] = e.readAlloc(fr, st, a)
 	}
